@@ -18,6 +18,7 @@ pub fn prop() -> Prop {
         level: "model_checking",
         rule: "(a) histories: every ordered sequence of <= 2 (quick) / <= 3 (thorough) programs of a 28-program batch chosen to collide (same literals, names and strings in different positions, heap allocation everywhere, builtin and nested-call errors, output), evaluated one after the other on one thread of one process: every evaluation must give the outcome the program gives alone in a FRESH process; (b) schedules: for every unordered pair of a 10-program subset, two evaluations on real threads under a controlled scheduler that yields before every VM instruction and between the phases of eval; EVERY schedule with at most p preemptions is run to completion and each thread's outcome must equal its solo outcome; (c) configurations: the whole check, and a table of operator and arithmetic programs across the overflow boundaries, runs under two builds of the interpreter (release-like; debug assertions + overflow checks) and the (program, outcome) tables must be identical, with the solo outcomes always taken from the release build. States = schedules + histories completed; transitions = scheduling points executed",
         assumptions: &[
+            "(d) the executable's symbol table is scanned for writable statics / thread-locals of the interpreter crate; if there are none the instruction-granularity schedules are sufficient; if some appear, a free-running (sampling, labelled) complement on real parallel threads is added, because the exhaustive argument no longer covers races inside one instruction",
             "instruction granularity: accesses inside one VM instruction are not interleaved by this scheduler; unsynchronised shared memory touched within a single instruction is outside its reach (the crate has no static, thread_local, lock or atomic: grep-verified in DESIGN 8)",
             "thread-local state introduced by a change is exposed by the histories (a), process-wide state by (a) and (b)",
         ],
@@ -81,6 +82,92 @@ pub fn solo_main(i: usize) {
     println!("{}", render(&o));
 }
 
+/// Writable process-wide or thread-local data of the interpreter crate in this very executable (symbol
+/// table scan). The exhaustive schedule argument of (b) works at instruction granularity, which is enough
+/// only if no such data exists; the instrumentation's own control block is the one expected entry.
+fn writable_statics() -> Option<Vec<String>> {
+    let exe = std::env::current_exe().ok()?;
+    let out = std::process::Command::new("nm").arg("-C").arg(exe).output().ok()?;
+    if !out.status.success() {
+        return None;
+    }
+    let text = String::from_utf8_lossy(&out.stdout).to_string();
+    let mut v = Vec::new();
+    for line in text.lines() {
+        let mut it = line.splitn(3, ' ');
+        let (_addr, ty, name) = (it.next()?, it.next().unwrap_or(""), it.next().unwrap_or(""));
+        if matches!(ty, "b" | "B" | "d" | "D") && name.contains("nederlang::") && !name.contains("nederlang::verif::") {
+            v.push(name.to_string());
+        }
+    }
+    v.sort();
+    v.dedup();
+    Some(v)
+}
+
+/// Free-running complement, used ONLY when the interpreter has writable statics (the precondition of the
+/// exhaustive schedule exploration does not hold): the pairs run on real threads without the baton, many
+/// times. This is sampling, labelled as such in the evidence; a difference from the solo outcome is real.
+fn free_running(sh: &mut Shard, solos: &[String], statics: &[String]) {
+    let set: Vec<usize> = (0..BATCH.len()).collect();
+    let reps = 40;
+    let mut pair_no = 0u64;
+    for x in 0..set.len() {
+        for y in x..set.len() {
+            pair_no += 1;
+            if pair_no % sh.nshards != sh.shard {
+                continue;
+            }
+            let (i, j) = (set[x], set[y]);
+            sh.count("free-running-pairs");
+            let barrier = std::sync::Arc::new(std::sync::Barrier::new(2));
+            let mut bad: Option<String> = None;
+            for _ in 0..reps {
+                let hs: Vec<_> = [i, j]
+                    .iter()
+                    .map(|k| {
+                        let b = barrier.clone();
+                        let text = BATCH[*k].to_string();
+                        std::thread::Builder::new()
+                            .stack_size(64 << 20)
+                            .spawn(move || {
+                                b.wait();
+                                let mut outs = Vec::new();
+                                for _ in 0..25 {
+                                    outs.push(render(&sched::solo(&text, 1_000_000)));
+                                }
+                                outs
+                            })
+                            .expect("spawn")
+                    })
+                    .collect();
+                for (t, h) in hs.into_iter().enumerate() {
+                    let k = [i, j][t];
+                    match h.join() {
+                        Ok(outs) => {
+                            if let Some(o) = outs.iter().find(|o| **o != solos[k]) {
+                                bad = Some(format!("{:?} running next to {:?} on another thread gave {o}, alone it gives {}", BATCH[k], BATCH[[j, i][t]], solos[k]));
+                            }
+                        }
+                        Err(_) => bad = Some(format!("the thread evaluating {:?} died", BATCH[k])),
+                    }
+                }
+                if bad.is_some() {
+                    break;
+                }
+            }
+            if let Some(why) = bad {
+                sh.violation(
+                    "free-running",
+                    json!({"programs": [BATCH[i], BATCH[j]], "free_running": true, "writable_statics": statics}),
+                    format!("{why} (the interpreter has process-wide writable data: {statics:?})"),
+                );
+                return;
+            }
+        }
+    }
+}
+
 fn table_programs(tier: Tier, seed: u64) -> Vec<Vec<Stmt>> {
     let lat = lattice(tier, seed);
     // a 40-value subset that includes both range ends and the values next to them
@@ -115,6 +202,20 @@ fn run(sh: &mut Shard) {
             None => {
                 sh.machinery(format!("cannot obtain the fresh-process outcome of batch program {i}"));
                 return;
+            }
+        }
+    }
+    // (d) precondition of the instruction-granularity argument: no writable statics in the interpreter
+    match writable_statics() {
+        None => sh.count("static-scan-unavailable"),
+        Some(list) => {
+            sh.count("static-scan-done");
+            if !list.is_empty() {
+                sh.add("writable-statics-found", list.len() as u64);
+                free_running(sh, &solos, &list);
+                if !sh.running() {
+                    return;
+                }
             }
         }
     }
@@ -296,6 +397,31 @@ fn replay(sh: &mut Shard, case: &Value) {
             println!("thread {t}: {p}\n    under the schedule: {}\n    alone:              {}", render(&run.outcomes[t]), render(&solo));
             if render(&run.outcomes[t]) != render(&solo) {
                 sh.violation("schedule", case.clone(), "outcome depends on the interleaving".into());
+            }
+        }
+        if case["free_running"].as_bool() == Some(true) {
+            println!("this was found by the free-running complement (real parallel threads): re-running it 200 times");
+            let solos: Vec<String> = programs.iter().map(|p| render(&sched::solo(p, 1_000_000))).collect();
+            for _ in 0..200 {
+                let hs: Vec<_> = programs
+                    .iter()
+                    .cloned()
+                    .map(|text| std::thread::spawn(move || (0..25).map(|_| render(&sched::solo(&text, 1_000_000))).collect::<Vec<_>>()))
+                    .collect();
+                for (t, h) in hs.into_iter().enumerate() {
+                    match h.join() {
+                        Ok(outs) => {
+                            if outs.iter().any(|o| *o != solos[t]) {
+                                sh.violation("free-running", case.clone(), "outcome depends on what runs on another thread".into());
+                                return;
+                            }
+                        }
+                        Err(_) => {
+                            sh.violation("free-running", case.clone(), "a thread died".into());
+                            return;
+                        }
+                    }
+                }
             }
         }
     } else if case["table"].is_string() {
